@@ -65,6 +65,13 @@ class Funcs:
     def hyp(self, x, y):
         return x * x + y * y
 
+    def size(self, c):
+        return len(c)
+
+    def kw(self, *args, **kwargs):
+        """reports its arguments exactly as received (keyword ORDER included)"""
+        return (tuple(args), tuple(kwargs.items()))
+
     def __eq__(self, other):
         return type(other) is Funcs
 
